@@ -203,11 +203,23 @@ def run(ck, fb, fbd):
                 r0 = rets_[0] if len(rets_) == 1 else ""
                 FROM, TO = r"vertex\(edge\(P0\)\.from_vertex\(\)\)", r"vertex\(edge\(P0\)\.to_vertex\(\)\)"
                 SUM = r"\((%s \+ %s|%s \+ %s)\)" % (FROM, TO, TO, FROM)
+                floating = not re.search(r"VectorT<(int|unsigned|short|long|char|signed)|Vec\d(i|ui|c|uc|s|us)\b", f.cls)
+                per_term_f = bool(re.fullmatch(r"(\w+\()?\(?\(\(?0\.5 \* %s\)? \+ \(?0\.5 \* %s\)?\)\)?\)?" % (FROM, TO), r0)) or bool(re.fullmatch(r"(\w+\()?\(?\(\(?0\.5 \* %s\)? \+ \(?0\.5 \* %s\)?\)\)?\)?" % (TO, FROM), r0))
+                comp = [cb.s(as_assign(x)[1]) for b, i, x in f.tops() if as_assign(x) and b in f.reach() and re.fullmatch(r".*\[it\d+\(0\)\]", cb.s(as_assign(x)[0]) or "")]
+                if floating and per_term_f:
+                    ck.ok("C19.geom", f.where, "barycenter(edge) on floating positions = 0.5*from + 0.5*to (halved before the sum, no overflow)")
+                    continue
+                if not floating and comp:
+                    A, B = FROM + r"\[it\d+\(0\)\]", TO + r"\[it\d+\(0\)\]"
+                    okc = any(re.fullmatch(r"\(\(\(%s / 2\) \+ \(%s / 2\)\) \+ \(\(\(%s %% 2\) \+ \(%s %% 2\)\) / 2\)\)" % (A, B, A, B), c_) for c_ in comp)
+                    if okc:
+                        ck.ok("C19.geom", f.where, "barycenter(edge) on integer positions = a/2 + b/2 + (a%2 + b%2)/2 per component (exact, no overflow)")
+                        continue
                 halved_sum = re.fullmatch(r"(\w+\()?\(?%s / 2(\.0)?\w*\)?\)?" % SUM, r0) or re.fullmatch(r"(\w+\()?\(?(%s \* 0\.5|0\.5 \* %s)\)?\)?" % (SUM, SUM), r0)
                 per_term = r0.count("0.5") == 2 and "from_vertex()" in r0 and "to_vertex()" in r0
                 if halved_sum:
-                    ck.ok("C19.geom", f.where, "barycenter(edge) = (from + to) / 2: the sum is formed before it is halved (exact on integer positions up to the final division)")
-                elif per_term:
+                    ck.violate("C19.geom", f.where, "barycenter(edge) avoids the plain sum of the end points: (from + to) / 2 overflows for large coordinates (inf for two coordinates of DBL_MAX, signed overflow for integers) (F75)", "C19.geom:barycenter_edge:overflow")
+                elif per_term and not floating:
                     ck.violate("C19.geom", f.where, "barycenter(edge) halves the SUM of the end points: 0.5*from + 0.5*to truncates each term separately on integer position types ((1,1,1)-(3,1,5) gives (1,0,2))", "C19.geom:barycenter_edge")
                 else:
                     ck.cannot_judge("C19.geom %s: barycenter(edge) is written in a form the rule does not know (%s) - not judged" % (f.where, r0[:90]))
